@@ -94,6 +94,13 @@ class Run:
         self.seed = int(os.environ.get("VERIF_SEED", "20260926"))
         self.rng = random.Random(self.seed * 1000003 + int(prop[1:]))
         self.t0 = time.time()
+        # the checks compile thousands of throw-away Go packages: the go build cache only trims entries older than five
+        # days, so it is emptied when the disk runs low (a full disk makes every build fail, i.e. breaks every check)
+        try:
+            if shutil.disk_usage("/").free < 25 * 2**30:
+                subprocess.run(["go", "clean", "-cache"], capture_output=True, timeout=600)
+        except Exception:
+            pass
         self.scratch = Path(tempfile.mkdtemp(prefix="verif-run.%s." % prop, dir="/tmp"))
         atexit.register(self._cleanup)
         self.violations = []       # (replay path, no_input flag)
